@@ -61,6 +61,9 @@ type Config struct {
 	// Orphan: the genesis carries a token record without an owner (valid for the module's
 	// genesis validation; "nobody governs it" must then hold for every account)
 	Orphan bool `json:"orphan,omitempty"`
+	// BulkTokens: the chain starts with about a hundred more tokens (a long history behind the
+	// chain): registries beyond what one page of a listing holds
+	BulkTokens int `json:"bulk_tokens,omitempty"`
 	Tax         string    `json:"tax"`        // 18-decimal integers
 	MintRatio   string    `json:"mint_ratio"` //
 	BaseFee     string    `json:"base_fee"`   // main units of the fee token
@@ -384,6 +387,10 @@ func (m *Module) Configure(w *engine.World, r *engine.Rand) any {
 		c.PGhostMake = 0.01 + 0.04*r.Float()
 	}
 	c.Orphan = r.Bool(0.35)
+	// (a stream of its own: a seed's run is otherwise what it was before this arm existed)
+	if br := engine.NewRand(engine.Mix(w.Sched.Seed, "token-bulk", 0)); br.Bool(0.06) {
+		c.BulkTokens = 96 + br.Intn(10)
+	}
 	return c
 }
 
@@ -473,6 +480,14 @@ func (m *Module) Genesis(w *engine.World, n *engine.Node, gs simapp.GenesisState
 	if m.cfg.Orphan {
 		g.Tokens = append(g.Tokens, v1.Token{Symbol: orphanSym, Name: "token without an owner", Scale: 6,
 			MinUnit: orphanMin, InitialSupply: 0, MaxSupply: maxU64, Mintable: false, Owner: ""})
+	}
+	if m.cfg.BulkTokens > 0 {
+		w.Hit("token.genesis_bulk_tokens")
+	}
+	for i := 0; i < m.cfg.BulkTokens; i++ {
+		g.Tokens = append(g.Tokens, v1.Token{Symbol: fmt.Sprintf("blk%03d", i), Name: "bulk token", Scale: uint32(i % 7),
+			MinUnit: fmt.Sprintf("ublk%03d", i), InitialSupply: 0, MaxSupply: uint64(1000 + i), Mintable: i%8 == 0,
+			Owner: w.A(i % (len(w.Actors) - 1)).Addr.String()})
 	}
 	for _, t := range g.Tokens {
 		if m.toks[t.Symbol] == nil {
